@@ -175,6 +175,16 @@ def run(ctx):
                 k0, k1 = rng.randint(1, 4), rng.randint(0, 3)
                 buf = np.concatenate([sample_values(raw_dt, k0), raw, sample_values(raw_dt, k1)]).astype(raw_dt)
                 w = cls.from_array_1d(buf, raw_dt, copy=rng.random() < 0.5, start_index=k0, sample_count=n, scale_mode=mode)
+            elif rng.random() < 0.3 and n:
+                # the samples are a strided / reversed view of the caller's memory (copy=False keeps that layout)
+                if rng.random() < 0.5:
+                    wide = np.zeros(2 * n + 1, raw_dt)
+                    wide[::2][:n] = raw
+                    view = wide[::2][:n]
+                else:
+                    view = raw[::-1].copy()[::-1]
+                w = cls.from_array_1d(view, raw_dt, copy=False, scale_mode=mode)
+                ctx.count("buffer", "non-contiguous view")
             else:
                 w = cls.from_array_1d(raw, raw_dt, scale_mode=mode)
             sup = [np.complex64, np.complex128] if complex_w else [np.float32, np.float64]
@@ -304,6 +314,36 @@ def run(ctx):
                         ctx.violation(what="window given as NumPy integer scalars", cls=cls.__name__, samples=n_samples, start_index=repr(T(a)), sample_count=repr(T(b)),
                                       observed=show(r)[:120] if r[0] != "ok" else f"{len(r[1])} samples", required=f"samples {a}..{a + b}" if fits else "ValueError")
                         break
+    # ---- windows of more than a million samples at non-zero start indices (whatever the implementation does for large requests:
+    # blocks, chunks): element k is gain*raw[start+k]+offset; gain and offset are exact in binary, so the expected values are exact
+    with warnings.catch_warnings():
+        warnings.simplefilter("ignore")
+        for case in range(2 if ctx.quick else 8):
+            total = rng.choice([(1 << 20) + 9, 1_300_000] if ctx.quick else [(1 << 20) + 9, 1_300_000, (1 << 21) + 77, 2_500_001])
+            start = rng.choice([1, 5, 4097, rng.randint(1, 100)])
+            complex_w = case % 2 == 1
+            gen = np.random.default_rng(ctx.seed * 31 + case)
+            if complex_w:
+                raw = np.zeros(total, ComplexInt32DType)
+                raw["real"] = gen.integers(-32768, 32768, total); raw["imag"] = gen.integers(-32768, 32768, total)
+                w = ComplexWaveform.from_array_1d(raw, ComplexInt32DType, copy=False, scale_mode=LinearScaleMode(0.25, 1.5))
+                req = np.complex64
+                want = (raw["real"][start:].astype(np.float64) * 0.25 + 1.5) + 1j * (raw["imag"][start:].astype(np.float64) * 0.25)
+            else:
+                raw = gen.integers(-32768, 32768, total).astype(np.int16)
+                w = AnalogWaveform.from_array_1d(raw, np.int16, copy=False, scale_mode=LinearScaleMode(0.25, 1.5))
+                req = rng.choice([np.float32, np.float64])
+                want = raw[start:].astype(np.float64) * 0.25 + 1.5
+            r = outcome(lambda: w.get_scaled_data(req, start_index=start))
+            ctx.case(("long-window", complex_w, total, start, str(np.dtype(req))))
+            ctx.count("window", "long (> 2^20)")
+            ok_ = r[0] == "ok" and r[1].dtype == np.dtype(req) and r[1].shape == want.shape and np.array_equal(r[1].astype(want.dtype), want)
+            if not ok_:
+                k = None
+                if r[0] == "ok" and r[1].shape == want.shape:
+                    k = int(np.argmax(r[1].astype(want.dtype) != want))
+                ctx.violation(what="scaled data of a long window", cls=type(w).__name__, samples=total, start_index=start, requested=str(np.dtype(req)), first_wrong_element=k,
+                              observed=(show(r)[:160] if k is None else str(r[1][k])), required=("gain*raw[start+k]+offset" if k is None else str(want[k])))
     res = ctx.model(lines)
     if res is not None:
         for q, want, got in zip(lines, expect, res):
